@@ -45,11 +45,10 @@ func verifDeliver(s *CoAServer, datagrams [][]byte) [][]byte {
 	}
 	var out [][]byte
 	for _, d := range datagrams {
-		cl.Write(d)
-		time.Sleep(50 * time.Millisecond)
+		cl.Write(d) // back to back: the socket buffer holds the next datagram while a handler runs
 	}
 	for {
-		cl.SetReadDeadline(time.Now().Add(300 * time.Millisecond))
+		cl.SetReadDeadline(time.Now().Add(800 * time.Millisecond))
 		buf := make([]byte, 4096)
 		n, err := cl.Read(buf)
 		if err != nil {
@@ -120,6 +119,7 @@ func verifCoAServer(calls *int, lastCoA **CoARequest) *CoAServer {
 	s.coaHandler = func(ctx context.Context, req *CoARequest) *CoAResponse {
 		*calls++
 		*lastCoA = req
+		verifHandlerDelay()
 		if okCoA {
 			return &CoAResponse{Success: true}
 		}
@@ -127,12 +127,21 @@ func verifCoAServer(calls *int, lastCoA **CoARequest) *CoAServer {
 	}
 	s.disconnectHandler = func(ctx context.Context, req *DisconnectRequest) *DisconnectResponse {
 		*calls++
+		verifHandlerDelay()
 		if okDM {
 			return &DisconnectResponse{Success: true}
 		}
 		return &DisconnectResponse{Success: false, ErrorCause: ErrorCauseSessionContextNotFound}
 	}
 	return s
+}
+
+// natively a handler takes a while (as a real session change does), so that a datagram queued behind the request
+// is read while the handler is still running if - and only if - the server dispatches handlers concurrently.
+func verifHandlerDelay() {
+	if !vSymbolic() {
+		time.Sleep(200 * time.Millisecond)
+	}
 }
 
 func verifCheckResponse(resp []byte, req []byte) {
